@@ -317,3 +317,55 @@ M('c10-bytearray-path-bytes-mod', 'C10', 'R4', U, "decoded_uri += _HEX_TO_BYTE[t
   "decoded_uri += _HEX_TO_BYTE[token_partial] % token[2:]")
 M('c10-inline-path-byte-after-rest', 'C10', 'R4', U, "reencoded_uri += _HEX_TO_BYTE[token_partial] + token[2:]",
   "reencoded_uri += token[2:] + _HEX_TO_BYTE[token_partial]")
+
+# ---------------------------------------------------------------- wave 10
+SCAN = ("            tokens = uri.split('%')\n            for token in tokens[1:]:\n                hex_octet = token[:2]\n\n"
+        "                if not len(hex_octet) == 2:\n                    break\n\n"
+        "                if not (hex_octet[0] in _HEX_DIGITS and hex_octet[1] in _HEX_DIGITS):\n                    break\n            else:\n")
+# R7 a one-shot iterator consumed twice (s10-c10-1): generator / map object fed to all() and then to ''.join()
+M('c10-escape-scan-generator-consumed-twice', 'C10', 'R7', U, SCAN,
+  "            hex_octets = (token[:2] for token in uri.split('%')[1:])\n"
+  "            if all(len(hex_octet) == 2 for hex_octet in hex_octets) and (\n"
+  "                not ''.join(hex_octets).rstrip(_HEX_DIGITS)\n            ):\n", also=('C15',))
+M('c10-escape-scan-map-consumed-twice', 'C10', 'R7', U, SCAN,
+  "            hex_octets = map(lambda token: token[:2], uri.split('%')[1:])\n"
+  "            if not ''.join(hex_octets).rstrip(_HEX_DIGITS) and all(len(hex_octet) == 2 for hex_octet in hex_octets):\n", also=('C15',))
+# R4 exactly-once: an optimistic pass with the try hoisted out of the loop, then the careful pass on the SAME, partly filled accumulator (s10-c10-2)
+M('c10-bytearray-joiner-retry-without-reset', 'C10', 'R4', U,
+  "    decoded_uri = bytearray(tokens[0])\n    for token in tokens[1:]:\n",
+  "    decoded_uri = bytearray(tokens[0])\n\n    try:\n        for token in tokens[1:]:\n"
+  "            decoded_uri += _HEX_TO_BYTE[token[:2]] + token[2:]\n        return decoded_uri.decode('utf-8', 'replace')\n"
+  "    except KeyError:\n        pass\n\n    for token in tokens[1:]:\n")
+M('c10-list-joiner-retry-without-reset', 'C10', 'R4', U,
+  "    decoded = tokens[:1]\n",
+  "    decoded = tokens[:1]\n    try:\n        for token in tokens[1:]:\n"
+  "            decoded.append(_HEX_TO_BYTE[token[:2]] + token[2:])\n        return b''.join(decoded).decode('utf-8', 'replace')\n"
+  "    except KeyError:\n        pass\n")
+# the careful pass run twice (a "second attempt" after a complete first one)
+M('c10-bytearray-joiner-second-pass', 'C10', 'R4', U,
+  "    # Convert back to str\n    return decoded_uri.decode('utf-8', 'replace')\n",
+  "    for token in tokens[1:]:\n        try:\n            decoded_uri += _HEX_TO_BYTE[token[:2]] + token[2:]\n"
+  "        except KeyError:\n            decoded_uri += b'%' + token\n\n    # Convert back to str\n    return decoded_uri.decode('utf-8', 'replace')\n")
+# negative controls (exit 0): the same optimistic pass with `decoded_uri = bytearray(tokens[0])` in the KeyError arm / after the
+# try statement / with the return in an `else:` arm; `decoded_uri.clear()` instead is exit 2 (not read)
+# R5 read through the shapes of preserving/k1-c10-1 and k1-c10-2: the break inside them
+_OCTETS = "_HEX_OCTETS = frozenset(a + b for a in %s for b in %s)\n\n\ndef _create_char_encoder("
+_OCTET_TEST = ("                hex_octet = token[:2]\n\n                if not len(hex_octet) == 2:\n                    break\n\n"
+               "                if not (hex_octet[0] in _HEX_DIGITS and hex_octet[1] in _HEX_DIGITS):\n                    break\n")
+M2('c10-octet-set-lower-case-only', 'C10', 'R5', [
+    {'file': U, 'old': "def _create_char_encoder(", 'new': _OCTETS % ("'0123456789abcdef'", "'0123456789abcdef'")},
+    {'file': U, 'old': _OCTET_TEST, 'new': "                if token[:2] not in _HEX_OCTETS:\n                    break\n"}], also=('C15',))
+M2('c10-octet-set-with-single-digits', 'C10', 'R5', [
+    {'file': U, 'old': "def _create_char_encoder(", 'new': (_OCTETS % ('_HEX_DIGITS', "_HEX_DIGITS + ' '")).replace("a + b for", "(a + b).strip() for")},
+    {'file': U, 'old': _OCTET_TEST, 'new': "                if token[:2] not in _HEX_OCTETS:\n                    break\n"}], also=('C15',))
+_SCAN_HELPER = ("def _has_only_valid_escapes(uri):\n    tokens = uri.split('%%')\n    for token in tokens[1:]:\n        hex_octet = token[:2]\n\n"
+                "        if not len(hex_octet) == 2:\n            return %s\n\n"
+                "        if not (hex_octet[0] in _HEX_DIGITS and hex_octet[1] in _HEX_DIGITS):\n            return False\n\n    return True\n\n\n"
+                "def _create_str_encoder(")
+M2('c10-scan-helper-accepts-short-escape', 'C10', 'R5', [
+    {'file': U, 'old': "def _create_str_encoder(", 'new': _SCAN_HELPER % 'True'},
+    {'file': U, 'old': SCAN, 'new': "            if _has_only_valid_escapes(uri):\n"}], also=('C15',))
+M2('c10-scan-helper-outcome-negated', 'C10', 'R5', [
+    {'file': U, 'old': "def _create_str_encoder(", 'new': _SCAN_HELPER % 'False'},
+    {'file': U, 'old': SCAN, 'new': "            if not _has_only_valid_escapes(uri):\n"}], also=('C15',))
+# the factory's extra parameter takes part in the encoder's decision (k1-c10-4 shape, not cosmetic): exit 2 by design, not listed
